@@ -225,6 +225,7 @@ class Execution:
         self.started = False
         self.speed = None
         self.stats = collections.Counter()
+        self.c18 = {}  # cell-veto handler -> (active cell at proposal, target cell, offset)
         self.initial = snapshot(self.sh)
         self.tagger_of = self.act._event_handler_tagger_dictionary
         self.start_handler = self.act._start_of_run_event_handler
@@ -280,6 +281,8 @@ class Execution:
                 if _phase == "time":
                     ex.handler_draws[h] = []
                 try:
+                    if "C18" in ex.mon and hasattr(h, "_upper_bound_walker"):
+                        return ex.check_c18_call(h, _phase, _real, a, k)
                     return _real(*a, **k)
                 finally:
                     ex.ctx = prev
@@ -420,6 +423,7 @@ class Execution:
         self.tagger_of = self.act._event_handler_tagger_dictionary
         self.start_handler = self.act._start_of_run_event_handler
         self.pending = {hmap[id(h)]: [tmap.get(id(v[0]), v[0])] + list(v[1:]) for h, v in self.pending.items()}
+        self.c18 = {}  # cells are new objects after the round trip: proposals made before it are not judged
         self.candidate = {hmap[id(h)]: v for h, v in self.candidate.items()}
         self.handler_draws = {hmap[id(h)]: v for h, v in self.handler_draws.items() if id(h) in hmap}
         if self.current is not None and id(self.current) in hmap:
@@ -483,6 +487,8 @@ class Execution:
             self.check_c09()
         if "C11" in self.mon:
             self.check_c11()
+        if "C10" in self.mon:
+            self.check_c10()
 
     def on_commit_before(self, before):
         if "C13" in self.mon and self.after_prev is not None and before != self.after_prev:
@@ -662,6 +668,69 @@ class Execution:
                    "running handlers %r" % (sorted(type(h).__name__ for h in self.candidate),
                                             sorted(type(h).__name__ for h in self.pending)))
 
+    # ---- C10 --------------------------------------------------------------------------------------------------------
+    def check_c10(self):
+        """At every leg, for every cell system with one interaction family: the targets of the *pending* events of the
+        nearby-cells and surplus taggers, plus the occupants of the non-nearby cells when a cell-veto event is pending
+        (or the targets of the pending cell-bounding events), are exactly the recorded non-active relevant units, each
+        once."""
+        if not self.commits or not self.act._internal_states:
+            return
+        for ist in self.act._internal_states:
+            if not hasattr(ist, "yield_active_cells"):
+                continue
+            act = list(ist.yield_active_cells())
+            if len(act) != 1:
+                continue
+            acell, aid = act[0]
+            fam = collections.defaultdict(list)
+            for tg in self.act._taggers:
+                if getattr(tg, "_internal_state", None) is ist:
+                    # (the factory derives a class named after the configuration section: look through the MRO)
+                    for base in ("ExcludedCellsTagger", "SurplusCellsTagger", "CellVetoTagger",
+                                 "CellBoundingPotentialTagger"):
+                        if any(c.__name__ == base for c in type(tg).__mro__):
+                            fam[base].append(tg)
+            far_taggers = fam.get("CellVetoTagger", []) + fam.get("CellBoundingPotentialTagger", [])
+            if len(fam.get("ExcludedCellsTagger", [])) != 1 or len(far_taggers) != 1 or \
+                    len(fam.get("SurplusCellsTagger", [])) > 1:
+                self.stats["c10_skipped_cell_systems"] += 1
+                continue
+            cells = ist.cells
+            expected = collections.Counter()
+            for cell in cells.yield_cells():
+                for ident in ist[cell]:
+                    expected[ident] += 1
+            for cell, lst in ist._surplus.items():
+                for ident in lst:
+                    expected[ident] += 1
+            covered = collections.Counter()
+            for tg in fam["ExcludedCellsTagger"] + fam.get("SurplusCellsTagger", []):
+                for h, (t, ids, b, c) in self.pending.items():
+                    if t is tg and ids:
+                        for target in ids[1:]:
+                            covered[tuple(target)] += 1
+            far = far_taggers[0]
+            far_pending = [ids for h, (t, ids, b, c) in self.pending.items() if t is far]
+            if far in fam.get("CellVetoTagger", []):
+                for _ in far_pending:
+                    nearby = cells.nearby_cells(acell)
+                    for cell in cells.yield_cells():
+                        if cell not in nearby:
+                            for ident in ist[cell]:
+                                covered[ident] += 1
+            else:
+                for ids in far_pending:
+                    for target in ids[1:]:
+                        covered[tuple(target)] += 1
+            self.stats["c10_partitions"] += 1
+            if covered != expected:
+                self.V("C10:partition-pending", "cell system of %s after %s (active %r in cell %r): the pending "
+                       "nearby/surplus/far events cover %s; the other relevant units are %s (missed %s, treated twice %s)"
+                       % (far.tag, self.commits[-1][0], aid, acell.identifier, sorted(covered.elements()),
+                          sorted(expected.elements()), sorted((expected - covered).elements()),
+                          sorted((covered - expected).elements())))
+
     # ---- C11 --------------------------------------------------------------------------------------------------------
     def _cell_contains(self, cell, pos, slack):
         for d in range(self.dim):
@@ -757,6 +826,50 @@ class Execution:
                 if not inside:
                     self.V("C11:left-cell", "active unit %r at %r is outside its recorded cell %r at the commit of %s "
                            "without a cell-boundary event" % (ident, p, cell.identifier, type(h).__name__))
+
+    # ---- C18 --------------------------------------------------------------------------------------------------------
+    def _c18_active_cell(self, h):
+        for ist in self.act._internal_states:
+            if getattr(ist, "cells", None) is h._cells and hasattr(ist, "yield_active_cells"):
+                act = list(ist.yield_active_cells())
+                if len(act) == 1:
+                    return act[0][0]
+        return None
+
+    def check_c18_call(self, h, phase, real, a, k):
+        """Cell-veto proposals inside a run: the target cell handed to the mediator is the active cell translated by an
+        offset the handler has a bound for (not an excluded one), and when the proposal is *committed* the active
+        unit is still in the cell the offset was applied to -- otherwise the event is confirmed against the bound of a
+        different offset than the one that now separates the two cells."""
+        if phase == "time":
+            ret = real(*a, **k)
+            try:
+                target = ret[1][0]
+                active = self._c18_active_cell(h)
+                if active is not None:
+                    rel = h._cells.relative_cell(target, active)
+                    if rel not in h._derivative_bounds:
+                        self.V("C18:offset-without-bound", "%s proposes target cell %r from active cell %r: the offset "
+                               "%r has no stored bound (excluded cell?)" % (type(h).__name__, target.identifier,
+                                                                             active.identifier, rel.identifier))
+                    self.c18[h] = (active, target, rel)
+                    self.stats["c18_proposals"] += 1
+            except HarnessError:
+                raise
+            except Exception as e:
+                raise HarnessError("C18 monitor cannot read the cell-veto proposal: %r" % (e,))
+            return ret
+        rec = self.c18.pop(h, None)
+        if rec is not None:
+            active_now = self._c18_active_cell(h)
+            if active_now is not None and active_now is not rec[0]:
+                now_rel = h._cells.relative_cell(rec[1], active_now)
+                self.V("C18:stale-target", "%s commits a proposal made in active cell %r (target %r, sampled offset %r) "
+                       "while the active unit is now in cell %r: the target is at offset %r of it"
+                       % (type(h).__name__, rec[0].identifier, rec[1].identifier, rec[2].identifier,
+                          active_now.identifier, now_rel.identifier))
+            self.stats["c18_commits"] += 1
+        return real(*a, **k)
 
     # ---- C12 --------------------------------------------------------------------------------------------------------
     def check_c12(self, after, h, t):
